@@ -6,6 +6,18 @@ to parcorFixed for sq = k*k) on binary64 bit patterns with `k ** 2` = libm pow, 
 the comparison impl <-> twin is BIT FOR BIT (no tolerance).  The exact specification on the rational
 values of the same coefficients is compared with a tolerance only where the recursion is well conditioned.
 
+entry "flevinson" (round 4): `levinson_durbin(r, order)` on float autocorrelation data.  The Lean side runs the
+recursion of the theorems (ALV.C11.levinsonG, proved equal to ALV.C11.levinson for the left-fold sum on any
+carrier and for CPython's compensated sum over any field) on binary64 bit patterns with `sum` = CPython >= 3.12's
+Neumaier summation: numerator and `error` are compared BIT FOR BIT; the exact recursion on the rational values
+of the same numbers is compared with a tolerance where it is well conditioned.
+
+entry "apply" (round 4): the call EXPRESSIONS `parcor(*args, **kwargs)` / `parcor_stable(*args, **kwargs)`: zero to
+two positional arguments, keywords `fir_filt` / `filt` / a foreign name, objects of four kinds (a constructed
+ZFilter with Laurent numerator / denominator; int / bool / Fraction; a Stream; float / complex / None / str / list /
+tuple / dict / Poly); observed: which exception and WHEN (by the call expression or by the first next()), the
+yields, the verdict - against ALV.C11.parcorApply / stableApply.
+
 entry "call": any ZFilter(num, den) with Laurent numerator / denominator (negative powers, missing power 0,
 leading / trailing zeros, constant / zero / feedback denominators), built from dicts, lists or z-expressions,
 called positionally or by keyword.
@@ -15,6 +27,7 @@ import common
 from common import err_kind, enc, encl, dec, decl, close_list
 from fractions import Fraction as F
 
+ENTRIES = ("fparcor", "call", "flevinson", "apply")
 TOL = F(1, 10**9)
 EPS = F(1, 10**16)
 SAFETY = 1000
@@ -112,6 +125,187 @@ def gen_float(rng, n):
     return out
 
 
+def case_flev(r, order, how):
+    return {"entry": "flevinson", "r": [float(x) for x in r], "order": order, "how": how}
+
+
+def _acorr_from_ks(ks, r0):
+    """float autocorrelation whose (exact) Levinson recursion has reflection coefficients close to ks"""
+    r, a, e = [r0], [1.0], r0
+    for m, k in enumerate(ks, 1):
+        acc = sum(a[i] * r[m - i] for i in range(1, m))
+        r.append(-k * e - acc)
+        ext = a + [0.0]
+        a = [x + k * y for x, y in zip(ext, ext[::-1])]
+        e = e * (1 - k * k)
+    return r
+
+
+def gen_flev(rng, n):
+    out = []
+    for _ in range(n):
+        order = rng.choice([1, 2, 3, 3, 4, 5, 6, 8])
+        t = rng.random()
+        if t < 0.45:
+            # a positive definite autocorrelation: reflection coefficients chosen in (-0.95, 0.95)
+            ks = [rng.uniform(-0.95, 0.95) for _ in range(order)]
+            r = _acorr_from_ks(ks, rng.choice([1.0, 2.0, rng.uniform(0.1, 50)]))
+            how = "float-from-ks"
+        elif t < 0.60:
+            # autocorrelation of a short random block (what lpc.autocor hands over)
+            blk = [rng.uniform(-1, 1) for _ in range(rng.randint(order + 1, order + 12))]
+            r = [sum(blk[i] * blk[i + l] for i in range(len(blk) - l)) for l in range(order + 1)]
+            how = "float-acorr-of-block"
+        elif t < 0.72:
+            # integral-valued floats (exact products, sums below 2^53)
+            r = [float(rng.randint(20, 60))] + [float(rng.randint(-9, 9)) for _ in range(order)]
+            how = "float-integral"
+        elif t < 0.82:
+            # near-singular: one reflection coefficient within 1e-3 .. 1e-12 of +-1
+            ks = [rng.uniform(-0.9, 0.9) for _ in range(order)]
+            ks[rng.randrange(order)] = rng.choice([1, -1]) * (1 - 10.0 ** -rng.randint(3, 12))
+            r = _acorr_from_ks(ks, 1.0)
+            how = "float-near-singular"
+        elif t < 0.90:
+            # really singular in binary64: r = [c, c] / [c, -c] (k = -+1 at step 1) or r0 = 0
+            c = rng.choice([1.0, 2.5, rng.uniform(0.1, 9)])
+            r = rng.choice([[c, c], [c, -c], [0.0, c], [c, -c, c, -c]]) + [rng.uniform(-1, 1) for _ in range(order)]
+            how = "float-singular"
+        else:
+            r = [rng.uniform(-3, 3) for _ in range(order + 1)]              # raw (indefinite): only the twin judges
+            how = "raw"
+        u = rng.random()
+        if u < 0.7:
+            r, o = r[:order + 1], order
+        elif u < 0.85:
+            o = max(1, order - rng.choice([1, 2]))                           # order below len(r) - 1
+        else:
+            o = order + rng.choice([1, 2])                                   # zero extension (appended int 0)
+        out.append(case_flev(r, o, how))
+    return out
+
+
+RATIONAL_SPELL = ["int", "bool", "fraction"]
+OTHER_SPELL = ["float", "complex", "none", "str", "list", "tuple", "dict", "poly"]
+
+
+def _rand_obj(rng):
+    t = rng.random()
+    if t < 0.6:
+        order = rng.choice([0, 1, 2, 3])
+        u = rng.random()
+        if u < 0.6:
+            ks = [F(rng.randint(1, 4) * rng.choice([1, -1]), 5) for _ in range(order)]
+            if rng.random() < .15 and ks:
+                ks[rng.randrange(order)] = F(rng.choice([1, -1]))                 # ParCorError
+            g = _rq(rng, 0)
+            num = [g * x for x in _step_up(ks, F(1))]
+        else:
+            num = [_rq(rng, 0.1) for _ in range(order + 1)]
+        v = rng.random()
+        if v < 0.6:
+            den = [_rq(rng, 0)]
+        elif v < 0.8:
+            den = [F(rng.randint(1, 5)), _rq(rng, 0)] + [_rq(rng, 0) for _ in range(rng.randint(0, 1))]   # feedback
+        else:
+            den = [F(0)] * rng.randint(1, 2) + [F(rng.randint(1, 4))]
+        nl = rng.choice([0, 0, 0, 1, -1, 2])
+        dl = rng.choice([0, 0, 0, 1, -1]) if rng.random() < .7 else nl
+        return {"kind": "filt", "num_lo": nl, "num": encl(num), "den_lo": dl, "den": encl(den)}
+    if t < 0.75:
+        return {"kind": "rational", "spell": rng.choice(RATIONAL_SPELL)}
+    if t < 0.82:
+        return {"kind": "stream"}
+    return {"kind": "other", "spell": rng.choice(OTHER_SPELL)}
+
+
+def gen_apply(rng, n):
+    out = []
+    for _ in range(n):
+        o, o2 = _rand_obj(rng), _rand_obj(rng)
+        shape = rng.choice(["pos"] * 6 + ["kw-fir_filt"] * 3 + ["kw-filt"] * 3 +
+                           ["kw-foreign", "none", "pos-pos", "pos+kw", "kw+kw"])
+        if shape == "pos":
+            args, kw = [o], []
+        elif shape.startswith("kw-"):
+            args, kw = [], [{"name": {"kw-fir_filt": "fir_filt", "kw-filt": "filt", "kw-foreign": "filter"}[shape], "obj": o}]
+        elif shape == "none":
+            args, kw = [], []
+        elif shape == "pos-pos":
+            args, kw = [o, o2], []
+        elif shape == "pos+kw":
+            args, kw = [o], [{"name": rng.choice(["fir_filt", "filt"]), "obj": o2}]
+        else:
+            args, kw = [], [{"name": "fir_filt", "obj": o}, {"name": "filt", "obj": o2}]
+        out.append({"entry": "apply", "args": args, "kwargs": kw, "shape": shape})
+    return out
+
+
+def _build_obj(o):
+    from audiolazy import ZFilter, Stream, Poly
+    k = o["kind"]
+    if k == "filt":
+        num, den = decl(o["num"]), decl(o["den"])
+        return ZFilter(dict((o["num_lo"] + i, x) for i, x in enumerate(num)),
+                       dict((o["den_lo"] + i, x) for i, x in enumerate(den)))
+    if k == "rational":
+        return {"int": 3, "bool": True, "fraction": F(3, 2)}[o["spell"]]
+    if k == "stream":
+        return Stream([3, 1])          # FINITE: a changed parcor_stable that unpacks / iterates its argument must end
+    return {"float": 2.5, "complex": 1j, "none": None, "str": "ab", "list": [1, 0.5], "tuple": (1,),
+            "dict": {0: 1}, "poly": Poly([1, 2])}[o["spell"]]
+
+
+class _Hang(BaseException):
+    pass
+
+
+def _watchdog(seconds, fn, *a):
+    """run fn(*a) under an alarm: a call that does not come back (e.g. a changed parcor_stable iterating an endless
+    Stream) is an observation {"when": "hang"}, not a hung check eating the machine's memory"""
+    import signal
+    def on_alarm(signum, frame):
+        raise _Hang()
+    try:
+        old = signal.signal(signal.SIGALRM, on_alarm)
+    except ValueError:                      # not the main thread: no watchdog
+        return fn(*a)
+    signal.setitimer(signal.ITIMER_REAL, seconds)
+    try:
+        return fn(*a)
+    except _Hang:
+        return {"when": "hang"}
+    finally:
+        signal.setitimer(signal.ITIMER_REAL, 0)
+        signal.signal(signal.SIGALRM, old)
+
+
+def _apply_parcor(args, kwargs):
+    from audiolazy import parcor
+    from audiolazy.lazy_lpc import ParCorError
+    try:
+        g = parcor(*args, **kwargs)
+    except Exception as ex:
+        return {"when": "call", "err": err_kind(ex)}
+    ks, raised = [], False
+    try:
+        for k in g:
+            ks.append(k)
+    except ParCorError:
+        raised = True
+    except Exception as ex:
+        return {"when": "next" if not ks else "mid-iteration", "err": err_kind(ex)}
+    return {"when": "gen", "ks": encl(ks), "raised": raised, "float": any(isinstance(k, float) for k in ks)}
+
+
+def _apply_stable(args, kwargs):
+    from audiolazy import parcor_stable
+    try:
+        return {"when": "verdict", "verdict": bool(parcor_stable(*args, **kwargs))}
+    except Exception as ex:
+        return {"when": "call", "err": err_kind(ex)}
+
+
 def case_call(num_lo, num, den_lo, den, build="dict", kw=False, spell="fraction"):
     c = {"entry": "call", "num_lo": num_lo, "num": encl(num), "den_lo": den_lo, "den": encl(den),
          "build": build, "kw": kw}
@@ -179,6 +373,13 @@ def generate(rng, tier, scale=1):
     quick = tier == "quick"
     n = (260 if quick else 3500) * scale
     cases = gen_float(rng, n) + gen_call(rng, (160 if quick else 1500) * scale)
+    cases += gen_flev(rng, (200 if quick else 3000) * scale)
+    cases += gen_apply(rng, (220 if quick else 2500) * scale)
+    if scale == 1:
+        cases.append(case_flev([12.0, 6.0, 0.0, -3.0, -6.0, -3.0, 0.0, 2.0, 4.0, 2.0], 3, "doc"))
+        cases.append(case_flev([1.0, 2.0, 3.0, 4.0, 5.0, 3.0, 2.0, 1.0], 7, "doc"))
+        cases.append(case_flev([0.1, 0.2, 0.3], 2, "doc"))
+        cases.append(case_flev([1.0, 1.0, 1.0], 2, "float-singular"))
     if scale == 1:
         # every int lead 1..300 with a fixed, well conditioned order-3 pole set (1/2, 1/7, 3/7 scaled)
         for g in (range(1, 301) if not quick else BAD_INTS[:12] + [1, 2, 16]):
@@ -218,6 +419,30 @@ def impl(c):
         except Exception as ex:
             o["stable"] = {"err": err_kind(ex)}
         return o
+    if e == "flevinson":
+        from audiolazy import levinson_durbin
+        from audiolazy.lazy_lpc import ParCorError
+        try:
+            f = levinson_durbin(list(c["r"]), c["order"])
+        except ParCorError:
+            return {"err": "ParCorError"}
+        except Exception as ex:
+            return {"err": err_kind(ex)}
+        a = list(f.numerator)
+        return {"a": [bits(x) for x in a], "error": bits(f.error),
+                "types": sorted(set(type(x).__name__ for x in a + [f.error]))}
+    if e == "apply":
+        try:
+            args = [_build_obj(o) for o in c["args"]]
+            kwargs = dict((p["name"], _build_obj(p["obj"])) for p in c["kwargs"])
+        except Exception as ex:
+            return {"construct_err": err_kind(ex)}
+        o = {"parcor": _watchdog(5, _apply_parcor, args, kwargs)}
+        # fresh objects for the second call (a Stream argument is consumed by the first)
+        args = [_build_obj(o_) for o_ in c["args"]]
+        kwargs = dict((p["name"], _build_obj(p["obj"])) for p in c["kwargs"])
+        o["stable"] = _watchdog(5, _apply_stable, args, kwargs)
+        return o
     if e == "call":
         num, den = _spell(decl(c["num"]), c.get("spell")), _spell(decl(c["den"]), c.get("spell"))
         nl, dl = c["num_lo"], c["den_lo"]
@@ -251,6 +476,12 @@ def impl(c):
 def request(c):
     if c["entry"] == "fparcor":
         return {"entry": "fparcor", "bits": [bits(x) for x in c["num"]]}
+    if c["entry"] == "apply":
+        strip = lambda o: {k: v for k, v in o.items() if k != "spell"}
+        return {"entry": "apply", "args": [strip(o) for o in c["args"]],
+                "kwargs": [{"name": p["name"], "obj": strip(p["obj"])} for p in c["kwargs"]]}
+    if c["entry"] == "flevinson":
+        return {"entry": "flevinson", "bits": [bits(x) for x in c["r"]], "order": c["order"]}
     return {k: v for k, v in c.items() if k not in ("build", "kw", "spell")}
 
 
@@ -309,6 +540,71 @@ def compare(c, io, drv):
                 out.append(("spec", "parcor_stable on floats %s but the exact verdict is %s" % (
                     io["stable"], drv["exact_stable"])))
         return out
+    if e == "flevinson":
+        tw = drv["twin"]
+        if not drv["input_finite"] or ("err" not in tw and not tw["finite"]):
+            io["compared"] = "not compared (non-finite)"
+            return out
+        io["compared"] = "bit-exact twin"
+        io["fold_same"] = drv["twin_fold"] == tw
+        if "err" in io or "err" in tw:
+            if io.get("err") != tw.get("err"):
+                out.append(("model", "levinson_durbin on floats: impl %r, binary64 twin %r" % (
+                    io.get("err", "returns"), tw.get("err", "returns"))))
+            if "err" in io and io["err"] != "ParCorError":
+                out.append(("spec", "levinson_durbin on floats raised " + io["err"]))
+            return out
+        # 1. bit for bit: Poly keeps no zero coefficient, the twin's list is dense
+        ta = list(tw["a"])
+        while len(ta) > 1 and ta[-1] == 0:
+            ta.pop()
+        ia = [0 if unbits(b) == 0 else b for b in io["a"]]
+        if ia != ta or io["error"] != tw["error"]:
+            out.append(("model", "levinson_durbin on floats %r error %r; binary64 twin %r error %r" % (
+                [unbits(b) for b in io["a"]], unbits(io["error"]), [unbits(b) for b in tw["a"]], unbits(tw["error"]))))
+        # 2. against the exact recursion on the same numbers, where it is well conditioned
+        ex = drv["exact"]
+        io["judged_vs_exact"] = False
+        if "err" not in ex:
+            ks = decl(ex["ks"])
+            r0 = abs(F(c["r"][0])) if c["r"] else F(1)
+            scale_ = max([abs(F(x)) for x in c["r"]] + [F(1)]) / min(r0, F(1)) if r0 else None
+            if scale_ is not None and all(abs(1 - k * k) > F(1, 20) for k in ks) and \
+                    _float_err(ks[::-1]) * scale_ * len(c["r"]) <= TOL / 10:
+                io["judged_vs_exact"] = True
+                ga = [F(unbits(b)) for b in io["a"]]
+                xa = decl(ex["a"])
+                n = max(len(ga), len(xa))
+                if not close_list(ga + [F(0)] * (n - len(ga)), xa + [F(0)] * (n - len(xa)), TOL):
+                    out.append(("spec", "levinson_durbin on floats: numerator %r, exact %r" % (
+                        [unbits(b) for b in io["a"]], [float(x) for x in xa])))
+                rel = TOL * max(F(1), abs(dec(ex["spec_error"])))
+                if abs(F(unbits(io["error"])) - dec(ex["spec_error"])) > rel:
+                    out.append(("spec", "error %r is not r0*prod(1-k^2) = %r" % (unbits(io["error"]), float(dec(ex["spec_error"])))))
+        return out
+    if e == "apply":
+        if "construct_err" in io:
+            io["compared"] = "not compared (an argument could not be constructed)"
+            return out
+        io["compared"] = "exact"
+        for fn in ("parcor", "stable"):
+            i, m = io[fn], drv[fn]
+            if i["when"] == "gen" and m["when"] == "gen":
+                tol = 0
+                if i["float"]:
+                    ks = decl(m["ks"])
+                    if any(abs(abs(k) - 1) < F(1, 10**6) for k in ks) or _float_err(ks) > TOL / 10:
+                        io["compared"] = "not compared (float leak, ill conditioned)"
+                        continue
+                    tol = TOL
+                if not (i["raised"] == m["raised"] and close_list(decl(i["ks"]), decl(m["ks"]), tol)):
+                    out.append(("model", "%s(*args, **kwargs) yields %r raised=%s; model %r" % (fn, i["ks"], i["raised"], m)))
+                    out.append(("spec", "%s through the call expression: wrong coefficients" % fn))
+            elif {k: v for k, v in i.items() if k != "float"} != m:
+                out.append(("model", "%s(*args, **kwargs): impl %r, model %r" % (fn, i, m)))
+                if i.get("err") == "ParCorError" or (m["when"] in ("gen", "verdict")) != (i["when"] in ("gen", "verdict")):
+                    out.append(("spec", "%s through the call expression: %r, expected %r" % (fn, i, m)))
+        return out
     if e == "call":
         mp, ms = drv["parcor"], drv["stable"]
         if "construct_err" in io:
@@ -343,6 +639,17 @@ def compare(c, io, drv):
                 s = drv["spec_parcor"]
                 if not (p["raised"] == s["raised"] and close_list(decl(p["ks"]), decl(s["ks"]), tol)):
                     out.append(("spec", "parcor yields %r raised=%s; spec %r" % (p["ks"], p["raised"], s)))
+                if not p["raised"]:
+                    # rebuilding (Props.C11.call_roundtrip): lead * step-up of the yields (read backwards) is the
+                    # numerator after the constructor's shift, zeros compacted - non-monic, Laurent-shifted input
+                    f = decl(drv["causal_num"])
+                    while f and f[-1] == 0:
+                        f.pop()
+                    reb = [f[0] * x for x in _step_up([F(k) for k in decl(p["ks"])][::-1], F(1))] if f else []
+                    io["rebuilt"] = True
+                    if len(reb) != len(f) or not close_list(reb, f, tol):
+                        out.append(("spec", "lead * step-up of the yielded coefficients %r does not rebuild the shifted "
+                                            "numerator %r" % (encl(reb)[:8], encl(f)[:8])))
         if isinstance(io["stable"], dict):
             out.append(("model", "parcor_stable raised %r" % (io["stable"],)))
             out.append(("spec", "parcor_stable raised %r" % (io["stable"],)))
@@ -359,6 +666,10 @@ def compare(c, io, drv):
 def nontrivial(c, io):
     if c["entry"] == "fparcor":
         return len(c["num"]) >= 2 and io.get("compared") == "bit-exact twin"
+    if c["entry"] == "flevinson":
+        return c["order"] >= 1 and io.get("compared") == "bit-exact twin"
+    if c["entry"] == "apply":
+        return "construct_err" not in io
     return "construct_err" not in io
 
 
@@ -378,6 +689,26 @@ def tally(eng, c, io):
         if "err" not in p:
             eng.count("float_parcor_branch", "ParCorError" if p.get("raised") else "completed")
             eng.count("float_stable", io.get("stable"))
+    elif e == "apply":
+        eng.count("apply_shape", c.get("shape", "?"))
+        for o in c["args"] + [p["obj"] for p in c["kwargs"]]:
+            eng.count("apply_object", o["kind"] + (":" + o["spell"] if "spell" in o else ""))
+        if "construct_err" in io:
+            eng.count("apply_parcor", "constructor:" + io["construct_err"])
+            return
+        for fn in ("parcor", "stable"):
+            i = io[fn]
+            eng.count("apply_" + fn, i["when"] + (":" + i["err"] if "err" in i else
+                                                  ":ParCorError" if i.get("raised") else ""))
+    elif e == "flevinson":
+        eng.count("flev_order", c["order"])
+        eng.count("flev_how", c.get("how", "?"))
+        eng.count("flev_outcome", io.get("err", "returned"))
+        eng.count("flev_order_vs_len", "order>=len(r)" if c["order"] >= len(c["r"]) else
+                  "order=len(r)-1" if c["order"] == len(c["r"]) - 1 else "order<len(r)-1")
+        eng.count("flev_judged_vs_exact", io.get("judged_vs_exact"))
+        eng.count("flev_compensated_vs_fold_run", "same" if io.get("fold_same", True) else
+                  "DIFFERENT (compensated sum != left fold)")
     else:
         eng.count("call_build", c.get("build", "dict") + ("+kw" if c.get("kw") else ""))
         eng.count("call_spelling", c.get("spell", "fraction"))
@@ -389,6 +720,9 @@ def tally(eng, c, io):
         p = io["parcor"]
         eng.count("call_outcome", "parcor:" + (p["err"] if "err" in p else "ParCorError" if p["raised"] else "completed"))
         eng.count("call_stable", io["stable"] if not isinstance(io["stable"], dict) else "err")
+        eng.count("call_rebuilt_checked", "%s lead%s1 shift%s0" % (
+            bool(io.get("rebuilt")), "==" if decl(c["num"])[:1] == [F(1)] else "!=",
+            "==" if c["num_lo"] == c["den_lo"] == 0 else "!="))
 
 
 # ----------------------------------------------------------------------------------------------
@@ -406,6 +740,29 @@ def shrink(c):
             for y in (0, 1, round(num[i]), round(num[i], 3), round(num[i], 1)):
                 if y != num[i] and not (i in (0, len(num) - 1) and y == 0) and len(repr(y)) < len(repr(num[i])):
                     yield case_f(num[:i] + [y] + num[i + 1:], c.get("how", "?"))
+    elif e == "apply":
+        simple = {"kind": "filt", "num_lo": 0, "num": ["2", "1"], "den_lo": 0, "den": ["1"]}
+        for i, o in enumerate(c["args"]):
+            if o != simple:
+                yield dict(c, args=c["args"][:i] + [simple] + c["args"][i + 1:])
+            if o["kind"] == "filt" and (o["num_lo"] or o["den_lo"]):
+                yield dict(c, args=c["args"][:i] + [dict(o, num_lo=0, den_lo=0)] + c["args"][i + 1:])
+        for i, p in enumerate(c["kwargs"]):
+            if p["obj"] != simple:
+                yield dict(c, kwargs=c["kwargs"][:i] + [{"name": p["name"], "obj": simple}] + c["kwargs"][i + 1:])
+            if len(c["kwargs"]) > 1:
+                yield dict(c, kwargs=c["kwargs"][:i] + c["kwargs"][i + 1:])
+    elif e == "flevinson":
+        r, o = list(c["r"]), c["order"]
+        if o > 1:
+            yield case_flev(r, o - 1, c.get("how", "?"))
+            yield case_flev(r[:o], o - 1, c.get("how", "?"))
+        if len(r) > o + 1:
+            yield case_flev(r[:o + 1], o, c.get("how", "?"))
+        for i in range(len(r)):
+            for y in (0.0, 1.0, float(round(r[i])), round(r[i], 3), round(r[i], 1)):
+                if y != r[i] and len(repr(y)) < len(repr(r[i])):
+                    yield case_flev(r[:i] + [y] + r[i + 1:], o, c.get("how", "?"))
     elif e == "call":
         num, den = decl(c["num"]), decl(c["den"])
         if c.get("spell"):
@@ -441,6 +798,11 @@ def classify(c, io, drv):
     e = c["entry"]
     if e == "fparcor":
         return "fparcor:float-coefficients-differ-from-exact"
+    if e == "apply":
+        return "apply:%s/%s" % (io.get("parcor", {}).get("err") or io.get("parcor", {}).get("when"),
+                                io.get("stable", {}).get("err") or io.get("stable", {}).get("when"))
+    if e == "flevinson":
+        return "flevinson:%s" % (io.get("err") or "float-result-differs-from-exact")
     p = io.get("parcor", {})
     return "call:%s" % (p.get("err") or "wrong-coefficients-or-verdict")
 
@@ -467,3 +829,37 @@ def extra_checks(eng):
                "1 - k ** 2 == 0.0 for a float k next to 1")
     except Exception as ex:
         yield ("float-twin-pow-is-cpython-pow", False, "driver fpow failed: %r" % (ex,))
+    # the decoder / encoder of bit patterns: identity on every finite pattern and the infinities, -0.0 -> +0.0
+    try:
+        pats = [bits(x) for x in xs[:600]] + [0, 1 << 63, 1, (1 << 63) | 1, 0x7ff0000000000000, 0xfff0000000000000,
+                                              0x000fffffffffffff, 0x0010000000000000, 0x7fefffffffffffff, bits(1.0), bits(-1.0)]
+        r = eng.driver.batch([{"id": "C11", "entry": "fbits", "bits": pats}])[0]
+        r = r.get("ok", r)
+        want = [0 if b == (1 << 63) else b for b in pats]
+        wfin = [abs(unbits(b)) != float("inf") for b in pats]
+        yield ("float-bits-roundtrip", r["bits"] == want and r["finite"] == wfin,
+               "F64.ofBits / F64.bits / F64.isFinite of the driver are not the identity / isfinite on the table")
+    except Exception as ex:
+        yield ("float-bits-roundtrip", False, "driver fbits failed: %r" % (ex,))
+    # the summation function of the Levinson twin is the builtin sum of THIS interpreter on floats
+    try:
+        ls = [[rng.uniform(-1, 1) * 10.0 ** rng.randint(-3, 3) for _ in range(rng.randint(1, 30))] for _ in range(1500)]
+        ls += [[1e16, 1.0, -1e16], [1.0, 1e100, 1.0, -1e100], [0.1] * 10, [-0.0, 0.0], [1e308, 1e308, -1e308], [3.0]]
+        r = eng.driver.batch([{"id": "C11", "entry": "fsum", "lists": [[bits(x) for x in l] for l in ls]}])[0]
+        r = r.get("ok", r)
+        nz = lambda v: bits(v) if v != 0 else 0
+        want = [nz(sum(l)) for l in ls]
+        def fold(l):
+            s_ = 0.0
+            for x in l:
+                s_ = s_ + x
+            return s_
+        wfold = [nz(fold(l)) for l in ls]
+        fin = [i for i, l in enumerate(ls) if sum(l) == sum(l) and abs(sum(l)) != float("inf")]
+        ok = all(r["sum"][i] == want[i] and r["fold"][i] == wfold[i] for i in fin)
+        eng.count("builtin_sum_vs_left_fold", "sum(l) != left fold on %d of %d table entries" % (
+            sum(1 for i in fin if want[i] != wfold[i]), len(fin)))
+        yield ("float-twin-sum-is-cpython-sum", ok,
+               "sumPyG F64.isFinite / lsum of the driver differ from the builtin sum / the left fold on the fixed table")
+    except Exception as ex:
+        yield ("float-twin-sum-is-cpython-sum", False, "driver fsum failed: %r" % (ex,))
